@@ -44,6 +44,18 @@ def build(score, via="abs"):
         s = P.seq_from_abs(ms)
         s.refresh()
         return s
+    if via == "late":
+        # absolute messages added note by note, later notes first: events of one tick are stored in insertion order, so a
+        # note-on can sit in front of the note-off of the same tick until the library sorts
+        s = P.Sequence()
+        notes = sorted(score["notes"], key=lambda n: (-n["s"], n["ch"], n["p"]))
+        for n in notes:
+            s.add_absolute_message(P.mk(P.on(n["s"], n["ch"], n["p"], n["v"])))
+            s.add_absolute_message(P.mk(P.off(n["e"], n["ch"], n["p"])))
+        rest = [m for m in ms if m["ty"] not in ("on", "off")]
+        for m in rest:
+            s.add_absolute_message(P.mk(m))
+        return s
     return P.seq_from_rel(P.abs_to_rel(ms))
 
 
@@ -55,3 +67,42 @@ def safe_views(seq):
 def via(idx):
     """rotating construction route of the sequence under test"""
     return ("abs", "rel", "both")[idx % 3]
+
+
+def via4(idx):
+    """for operations of the absolute view (which sort before pairing): also the non-canonical insertion order"""
+    return ("abs", "rel", "both", "late", "both")[idx % 5]
+
+
+def canonical_in(seq, score):
+    """The stored absolute view as the check's input; for the 'late' route the same timed events in canonical order
+    (a machinery error if they are not the same multiset)."""
+    stored = P.raw_abs(seq)
+    canon = score_abs(score)
+    key = lambda m: sorted(m.items())
+    if sorted(map(key, [m for m in stored if m["ty"] != "int"])) != sorted(map(key, [m for m in canon if m["ty"] != "int"])):
+        return stored
+    return canon
+
+
+_PERTURB = [0]
+
+
+def perturb_returned_defaults():
+    """What a caller building a custom grid does: take the lists the library's default helpers return and edit them
+    (add a value of their own - a different one each time -, drop one). The helpers must hand out fresh lists; if they
+    hand out shared ones, objects built earlier and later default-argument calls are corrupted."""
+    from scoda.misc import util as U
+    _PERTURB[0] += 1
+    own = [5, 7, 10, 11, 13, 14, 15, 17, 19, 20, 21, 22, 23][_PERTURB[0] % 13] + 24 * (_PERTURB[0] // 13 % 3)
+    for lst in (U.get_default_step_sizes(), U.get_default_step_sizes(lower_bound_shift=1), U.get_default_note_values(),
+                U.get_velocity_bins()):
+        try:
+            if _PERTURB[0] % 50 == 49:
+                lst.clear()
+            else:
+                lst.append(own)
+                if len(lst) > 3:
+                    del lst[1]
+        except Exception:
+            pass
